@@ -102,8 +102,9 @@ Theorem C08_lock_held_refuted :
 Proof. exact lock_held_witness. Qed.
 Print Assumptions C08_lock_held_refuted.
 
-(** The candidate repair (notes/F08_candidate_fix.patch: both queues are replaced whenever a worker is created;
-    model flag [fresh_queues]) makes the full statement true: EVERY script. *)
+(** The repair (both queues are replaced whenever a worker is created; model flag [fresh_queues]; in /repo since
+    commit 1ba89d0, and the configuration the correspondence check runs with) makes the full statement true:
+    EVERY script. *)
 Theorem C08_failure_is_local_with_fresh_queues : forall c s, fresh_queues c = true ->
   exists s1, run_dedicated c s = (map (single c) s, Completed, s1).
 Proof. intros c s H. exact (failure_is_local c s (or_intror H)). Qed.
@@ -121,3 +122,22 @@ Example C08_demo_run :
 Proof. exact demo_run. Qed.
 Example C08_demo_neutral : forallb (fun x => neutral demo_cfg (snd x)) demo_neutral = true.
 Proof. exact demo_neutral_ok. Qed.
+
+(** ---- non-vacuity per theorem (wp-audit) ---- *)
+(** C08_fault_is_failure: every kind of fault meets the premise under [demo_cfg] (timeout 2 s), a slow answer
+    within the timeout does not *)
+Example C08_fault_is_failure_nonvacuous :
+  forallb (is_fault demo_cfg) [BPlayerRaises; BExtractorRaises; BComparatorRaises; BExits; BHangs; BAnswersLate;
+                               BDrops; BDiesBefore; BSlow 4] = true /\
+  is_fault demo_cfg (BSlow 3) = false /\ is_fault demo_cfg BDifferent = false.
+Proof. repeat split. Qed.
+
+(** C08_failure_is_local_with_fresh_queues: a configuration with the repair switched on, run on the script of the
+    late-answer finding (not a clean script): every verdict is the recording's own *)
+Example C08_fresh_queues_nonvacuous :
+  let c := Cfg 5 2 false true in
+  let s := [(1, BEqual); (2, BAnswersLate); (3, BEqual); (4, BDifferent); (5, BDiesBefore); (6, BDrops); (7, BDifferent)] in
+  fresh_queues c = true /\ forallb (fun x => cleanb (snd x)) s = false /\
+  fst (run_dedicated c s) = (map (single c) s, Completed) /\
+  map verdict (map (single c) s) = [Equal; EqualizerFailure; Equal; Different; EqualizerFailure; EqualizerFailure; Different].
+Proof. vm_compute. repeat split. Qed.
